@@ -198,12 +198,24 @@ static long parse_id(std::string_view msg)
 
 static void forget_sink(int sid);
 
+// w2_faults: what a faulting sink call throws — 0: std::exception with text, 1: std::exception whose what() is "", 2: not a std::exception
+[[noreturn]] static void throw_kind(int kind, char const* text)
+{
+  if (kind == 1) { throw std::runtime_error(""); }
+  if (kind == 2) { throw 42; }
+  throw std::runtime_error(text);
+}
+static void parse_throws(std::string const& v, std::vector<int>& calls, std::map<int, int>& kinds); // "2,5e,7n"
+
 struct RecSink : quill::Sink
 {
   int sid;
   std::vector<int> wthrow, fthrow; // 1-based call numbers that throw
+  std::map<int, int> wkind, fkind;  // call number -> kind (absent: 0)
   int wcalls{0}, fcalls{0};
   explicit RecSink(int s) : sid(s) {}
+  // a sink with its own (override) pattern; an invalid one makes the backend's PatternFormatter constructor throw at first use
+  RecSink(int s, quill::PatternFormatterOptions const& override_pattern) : quill::Sink(override_pattern), sid(s) {}
   ~RecSink() override
   {
     g_events.push_back("sinkdtor:" + std::to_string(sid));
@@ -222,7 +234,7 @@ struct RecSink : quill::Sink
       if (k == wcalls)
       {
         g_events.push_back("wthrow:" + std::to_string(sid) + ":" + std::to_string(parse_id(msg)));
-        throw std::runtime_error("sink write failure");
+        throw_kind(wkind.count(k) ? wkind[k] : 0, "sink write failure");
       }
     }
     std::string e = "w:" + std::to_string(sid) + ":";
@@ -241,7 +253,7 @@ struct RecSink : quill::Sink
       if (k == fcalls)
       {
         g_events.push_back("fthrow:" + std::to_string(sid));
-        throw std::runtime_error("sink flush failure");
+        throw_kind(fkind.count(k) ? fkind[k] : 0, "sink flush failure");
       }
     }
     g_events.push_back("fl:" + std::to_string(sid));
@@ -271,6 +283,11 @@ static std::string canon_notifier(std::string const& s)
     while (p < s.size() && s[p] >= '0' && s[p] <= '9') { n += s[p++]; }
     return n;
   };
+  if (s.empty()) { return "n:empty"; }                                           // e.what() of an exception without text
+  if (s == "Caught unhandled exception.") { return "n:unhandled"; }              // the catch-all handlers
+  if (s.find("Invalid format pattern") != std::string::npos) { return "n:patfail"; } // PatternFormatter constructor
+  if (s.find("udt decode failure") != std::string::npos) { return "n:dfail"; }
+  if (s.find("notifier failure") != std::string::npos) { return "n:nfail"; }
   if (s.find("Dropped") != std::string::npos) { return "n:dropped:" + find_num_after("Dropped ") + ":tid" + find_num_after("from thread "); }
   if (s.find("blocking occurrences") != std::string::npos) { return "n:blocked:" + find_num_after("Experienced ") + ":tid" + find_num_after("on thread "); }
   if (s.find("Allocated a new SPSC queue") != std::string::npos) { return "n:alloc:" + find_num_after("capacity of ") + ":" + find_num_after("(previously "); }
@@ -379,6 +396,59 @@ static void hook(int site)
   g_hook_site = 0;
 }
 
+// w2_faults: faults of the backend's read pass ------------------------------------------------------
+// a user-defined type whose codec (same bytes as a std::string) can be armed to throw when the backend decodes it
+struct Boom
+{
+  std::string payload;
+};
+static std::vector<int> g_dthrow; // 1-based numbers of the decode calls (of Boom arguments) that throw
+static int g_dcalls = 0;
+static bool g_alloc_notice_throws = false; // the error notifier throws on the next "Allocated a new SPSC queue" notice
+template <>
+struct quill::Codec<Boom>
+{
+  static size_t compute_encoded_size(quill::detail::SizeCacheVector& c, Boom const& b) noexcept
+  {
+    return quill::Codec<std::string>::compute_encoded_size(c, b.payload);
+  }
+  static void encode(std::byte*& buffer, quill::detail::SizeCacheVector const& c, uint32_t& idx, Boom const& b) noexcept
+  {
+    quill::Codec<std::string>::encode(buffer, c, idx, b.payload);
+  }
+  static std::string_view decode_arg(std::byte*& buffer) { return quill::Codec<std::string>::decode_arg(buffer); }
+  static void decode_and_store_arg(std::byte*& buffer, quill::DynamicFormatArgStore* args_store)
+  {
+    ++g_dcalls;
+    for (int k : g_dthrow)
+    {
+      if (k == g_dcalls)
+      {
+        g_events.push_back("dthrow:" + std::to_string(g_dcalls));
+        throw std::runtime_error("udt decode failure");
+      }
+    }
+    std::string_view const a = decode_arg(buffer);
+    args_store->push_back(fmtquill::string_view{a.data(), a.size()});
+  }
+};
+
+static void parse_throws(std::string const& v, std::vector<int>& calls, std::map<int, int>& kinds)
+{
+  std::string cur;
+  auto flush = [&]
+  {
+    if (cur.empty()) { return; }
+    int kind = 0;
+    if (cur.back() == 'e') { kind = 1; cur.pop_back(); }
+    else if (cur.back() == 'n') { kind = 2; cur.pop_back(); }
+    if (!cur.empty()) { int const k = std::stoi(cur); calls.push_back(k); if (kind) { kinds[k] = kind; } }
+    cur.clear();
+  };
+  for (char c : v) { if (c == ',') { flush(); } else { cur += c; } }
+  flush();
+}
+
 // the statement macros used by the actors ----------------------------------------------------------
 #define H2_ARG(id, len) (++g_evals, payload(id, len))
 
@@ -398,6 +468,11 @@ static bool do_log_dynamic_ret(LoggerT* lg, quill::LogLevel lvl, long id, size_t
 static void do_log_named(LoggerT* lg, long id, size_t len)
 {
   LOG_INFO(lg, "{pay}", H2_ARG(id, len));
+}
+
+static void do_log_udt(LoggerT* lg, long id, size_t len)
+{
+  LOG_INFO(lg, "{}", Boom{H2_ARG(id, len)});
 }
 
 static void do_log_static(LoggerT* lg, int lvl, long id, size_t len)
@@ -499,14 +574,14 @@ static std::string exec_op(std::vector<std::string> const& w)
     a->stall_armed = true;
     return "ok";
   }
-  if (op == "L" || op == "LS" || op == "LB" || op == "LN")
+  if (op == "L" || op == "LS" || op == "LB" || op == "LN" || op == "LU")
   {
     Actor* a = actor_of(w[1]);
     int const g = std::stoi(w[2]);
     if (!need_idle(a) || !g_loggers.count(g) || !g_loggers[g]) { return "noop"; }
     LoggerT* lg = g_loggers[g];
-    int const lvl = op == "LB" ? 9 : op == "LN" ? 4 : std::stoi(w[3]);
-    size_t const len = std::stoul((op == "LB" || op == "LN") ? w[3] : w[4]);
+    int const lvl = op == "LB" ? 9 : (op == "LN" || op == "LU") ? 4 : std::stoi(w[3]);
+    size_t const len = std::stoul((op == "LB" || op == "LN" || op == "LU") ? w[3] : w[4]);
     long const id = g_next_id++;
     auto st = a->drive(
       [=]
@@ -530,6 +605,11 @@ static std::string exec_op(std::vector<std::string> const& w)
         else if (op == "LN")
         {
           do_log_named(lg, id, len);
+          r = "id=" + std::to_string(id);
+        }
+        else if (op == "LU")
+        {
+          do_log_udt(lg, id, len);
           r = "id=" + std::to_string(id);
         }
         else
@@ -669,6 +749,18 @@ static std::string exec_op(std::vector<std::string> const& w)
     return "noop";
 #endif
   }
+  if (op == "DT")
+  {
+    // w2_faults: the k-th decode (counted from the start of the life) of a user-defined-type argument throws
+    g_dthrow.push_back(std::stoi(w[1]));
+    return "ok";
+  }
+  if (op == "NA")
+  {
+    // w2_faults: the error notifier throws on the next allocation notice of an unbounded queue
+    g_alloc_notice_throws = true;
+    return "ok";
+  }
   if (op == "SL")
   {
     int const g = std::stoi(w[1]);
@@ -705,8 +797,14 @@ static std::string exec_op(std::vector<std::string> const& w)
       }
     }
     g_in_poll = true;
-    g_mw->poll_one();
+    // an exception that escapes _poll(): ManualBackendWorker::poll_one hands it to the caller, the backend thread's run loop
+    // catches it around _poll() and reports it — either way this poll is over
+    try { g_mw->poll_one(); }
+    catch (std::exception const& e) { g_events.push_back("x:" + canon_notifier(e.what()).substr(2)); }
+    catch (...) { g_events.push_back("x:unhandled"); }
     g_in_poll = false;
+    g_in_hook = false;
+    g_hook_site = 0;
     g_inject.clear();
     return "ev";
   }
@@ -719,6 +817,8 @@ static std::string exec_op(std::vector<std::string> const& w)
     // real time passes while the drain loop spins; statements younger than now - grace become eligible
     g_auto_tick = 1000;
     g_in_poll = true;
+    g_dthrow.clear(); // read-pass faults are not armed during the exit drain (an exception there ends the backend thread)
+    g_alloc_notice_throws = false;
     quill::detail::BackendManager::instance()._backend_worker._exit();
     g_in_poll = false;
     g_auto_tick = 0;
@@ -749,6 +849,11 @@ int main(int argc, char** argv)
   {
     std::string const c = canon_notifier(s);
     g_events.push_back(c);
+    if (c.rfind("n:alloc", 0) == 0 && g_alloc_notice_throws)
+    {
+      g_alloc_notice_throws = false;
+      throw std::runtime_error("notifier failure");
+    }
     // site 8.k: inside the k-th drop / blocked report of this poll (the frontend keeps running meanwhile)
     if (!tl_actor && g_in_poll && (c.rfind("n:dropped", 0) == 0 || c.rfind("n:blocked", 0) == 0)) { hook(8); }
   };
@@ -781,7 +886,14 @@ int main(int argc, char** argv)
     if (w[0] == "sink")
     {
       int const sid = std::stoi(w[1]);
-      auto sp = std::static_pointer_cast<RecSink>(FE::create_or_get_sink<RecSink>("s" + std::to_string(sid), sid));
+      std::string pat;
+      for (size_t i = 2; i < w.size(); ++i) { if (w[i].rfind("pat=", 0) == 0) { pat = w[i].substr(4); } }
+      // pat=bad: an override pattern with an unknown attribute (the backend's PatternFormatter constructor throws);
+      // pat=ok: a valid override pattern
+      auto sp = pat.empty()
+        ? std::static_pointer_cast<RecSink>(FE::create_or_get_sink<RecSink>("s" + std::to_string(sid), sid))
+        : std::static_pointer_cast<RecSink>(FE::create_or_get_sink<RecSink>(
+            "s" + std::to_string(sid), sid, quill::PatternFormatterOptions{pat == "bad" ? "%(mesage)" : "%(message)"}));
       g_sinks[sid] = sp.get();
       g_sinks_keepalive[sid] = sp;
       for (size_t i = 2; i < w.size(); ++i)
@@ -797,8 +909,8 @@ int main(int argc, char** argv)
             sp->add_filter(std::make_unique<ModFilter>("f" + std::to_string(sid), std::stoi(mr[0]), std::stoi(mr[1])));
           }
         }
-        else if (kv[0] == "wthrow") { for (auto const& k : split(kv[1], ',')) { if (!k.empty()) sp->wthrow.push_back(std::stoi(k)); } }
-        else if (kv[0] == "fthrow") { for (auto const& k : split(kv[1], ',')) { if (!k.empty()) sp->fthrow.push_back(std::stoi(k)); } }
+        else if (kv[0] == "wthrow") { parse_throws(kv[1], sp->wthrow, sp->wkind); }
+        else if (kv[0] == "fthrow") { parse_throws(kv[1], sp->fthrow, sp->fkind); }
       }
       std::cout << line << " => ok\n";
       continue;
